@@ -520,6 +520,20 @@ def _rk_accumulate(
     )
 
 
+@wp.kernel
+def _rk_time(
+  # Model:
+  opt_timestep: wp.array[float],
+  # In:
+  time_t0: wp.array[float],
+  scale: float,
+  # Data out:
+  time_out: wp.array[float],
+):
+  worldid = wp.tid()
+  time_out[worldid] = time_t0[worldid] + scale * opt_timestep[worldid % opt_timestep.shape[0]]
+
+
 @event_scope
 def rungekutta4(m: Model, d: Data):
   """Runge-Kutta explicit order 4 integrator."""
@@ -541,12 +555,18 @@ def rungekutta4(m: Model, d: Data):
 
   _rk_accumulate(m, d, B[0], qvel_rk, qacc_rk, act_dot_rk)
 
+  time_t0 = wp.clone(d.time)
+
   for i in range(3):
     a, b = float(A[i]), B[i + 1]
     _rk_perturb_state(m, d, a, qpos_t0, qvel_t0, act_t0)
-    forward(m, d)
+    # sub-stage time t + c * h (delayed controls are read at the stage time); sensors keep the values
+    # computed at time t, as in mj_RungeKutta (mj_forwardSkip with skipsensor)
+    wp.launch(_rk_time, dim=d.nworld, inputs=[m.opt.timestep, time_t0, a], outputs=[d.time])
+    _forward(m, d, skip_sensor=True)
     _rk_accumulate(m, d, b, qvel_rk, qacc_rk, act_dot_rk)
 
+  wp.copy(d.time, time_t0)
   wp.copy(d.qpos, qpos_t0)
   wp.copy(d.qvel, qvel_t0)
 
@@ -1346,18 +1366,24 @@ def _energy_vel(m: Model, d: Data):
 @event_scope
 def forward(m: Model, d: Data):
   """Forward dynamics."""
+  _forward(m, d)
+
+
+def _forward(m: Model, d: Data, skip_sensor: bool = False):
   sleep_enabled = bool(m.opt.enableflags & EnableBit.SLEEP) and not bool(m.opt.disableflags & DisableBit.ISLAND)
   if sleep_enabled:
     sleep.wake(m, d)
     sleep.update_sleep(m, d)
 
   fwd_position(m, d, factorize=False)
-  d.sensordata.zero_()
-  sensor.sensor_pos(m, d)
+  if not skip_sensor:
+    d.sensordata.zero_()
+    sensor.sensor_pos(m, d)
   _energy_pos(m, d)
 
   fwd_velocity(m, d)
-  sensor.sensor_vel(m, d)
+  if not skip_sensor:
+    sensor.sensor_vel(m, d)
   _energy_vel(m, d)
 
   if not (m.opt.disableflags & DisableBit.ACTUATION):
@@ -1367,7 +1393,8 @@ def forward(m: Model, d: Data):
   fwd_acceleration(m, d, factorize=True)
 
   solver.solve(m, d)
-  sensor.sensor_acc(m, d)
+  if not skip_sensor:
+    sensor.sensor_acc(m, d)
 
 
 @event_scope
